@@ -82,24 +82,46 @@ theorem stage5_eq_nil (m : MM) : stage5 m = [] ↔ ∀ n, ¬ Reach m.classes n n
 
 /-! ### Stage 6 -/
 
+theorem clash_eq_nil (cs : List Cls) (c : Cls) :
+    report .inheritedClash (fun ab => clashing ab.1 ab.2) (ancestorPairs cs c) = [] ↔
+      ∀ a ∈ ancestorClasses cs c, ∀ b ∈ ancestorClasses cs c, a.name ≠ b.name → ∀ n ∈ a.propNames, n ∉ b.propNames := by
+  rw [report_eq_nil]
+  unfold ancestorPairs clashing
+  simp only [List.mem_flatMap, List.mem_map, forall_exists_index, and_imp]
+  constructor
+  · intro h a ha b hb hne n hn hnb
+    have := h (a, b) a ha b hb rfl
+    simp only [Bool.and_eq_false_iff, bne_eq_false_iff_eq, List.any_eq_false, decide_eq_true_eq] at this
+    rcases this with h1 | h2
+    · exact hne h1
+    · exact h2 n hn hnb
+  · intro h ab a ha b hb hab
+    subst hab
+    simp only [Bool.and_eq_false_iff, bne_eq_false_iff_eq, List.any_eq_false, decide_eq_true_eq]
+    by_cases hne : a.name = b.name
+    · exact .inl hne
+    · exact .inr (fun n hn => h a ha b hb hne n hn)
+
 theorem stage6_eq_nil (m : MM) :
     stage6 m = [] ↔
+      (∀ c ∈ m.classes, ∀ a ∈ ancestorClasses m.classes c, ∀ b ∈ ancestorClasses m.classes c,
+        a.name ≠ b.name → ∀ n ∈ a.propNames, n ∉ b.propNames) ∧
       (∀ c ∈ m.classes, ∀ n ∈ c.propNames ++ c.methods, n ∉ inheritedMemberNames m.classes c) ∧
       (∀ c ∈ m.classes, c.ctor = none → ∀ a ∈ ancestorClasses m.classes c, ctorHasArgs a = false) := by
   unfold stage6
-  simp only [List.flatMap_eq_nil_iff, List.append_eq_nil_iff, report_eq_nil, decide_eq_false_iff_not,
-    List.mem_append]
+  simp only [List.flatMap_eq_nil_iff, List.append_eq_nil_iff, clash_eq_nil]
+  simp only [report_eq_nil, decide_eq_false_iff_not, List.mem_append]
   constructor
   · intro h
-    refine ⟨fun c hc n hn => ?_, fun c hc hn a ha => ?_⟩
+    refine ⟨fun c hc => (h c hc).1.1.1, fun c hc n hn => ?_, fun c hc hn a ha => ?_⟩
     · rcases hn with hn | hn
-      · exact (h c hc).1.1 n hn
+      · exact (h c hc).1.1.2 n hn
       · exact (h c hc).1.2 n hn
     · have := (h c hc).2
       simp only [hn, Option.isNone_none, if_true, report_eq_nil] at this
       exact this a ha
-  · rintro ⟨h1, h2⟩ c hc
-    refine ⟨⟨fun n hn => h1 c hc n (.inl hn), fun n hn => h1 c hc n (.inr hn)⟩, ?_⟩
+  · rintro ⟨h0, h1, h2⟩ c hc
+    refine ⟨⟨⟨h0 c hc, fun n hn => h1 c hc n (.inl hn)⟩, fun n hn => h1 c hc n (.inr hn)⟩, ?_⟩
     cases hn : c.ctor with
     | none =>
       simp only [Option.isNone_none, if_true, report_eq_nil]
